@@ -5,7 +5,7 @@ import ring_common as R
 
 PROP = 'C13'
 BUILDS, TRANSLATORS, MINIMISE, SHARD_TIMEOUT, ASSUMPTIONS, RULE = R.BUILDS, R.TRANSLATORS, R.MINIMISE, R.SHARD_TIMEOUT, R.ASSUMPTIONS, R.RULE
-EXTRA_THEOREM_MODULES = R.EXTRA_THEOREM_MODULES + ['DcVerif.Lemmas.RingMultiPay']
+EXTRA_THEOREM_MODULES = R.EXTRA_THEOREM_MODULES + ['DcVerif.Props.C05Gen', 'DcVerif.Lemmas.RingMultiPay']
 classify, nontrivial = R.classify, R.nontrivial
 
 
